@@ -42,10 +42,11 @@ def input_driven(R, excs):
     return out
 
 
-def lower_bound_progress(ctx, repo, R, fi, construct):
+def lower_bound_progress(ctx, repo, R, fi, construct, loop=None):
     """R-LOWER for the `while index < len(stream)` loop of a load() function."""
     fn = fi.node
-    loop = next((s for s in walk_no_nested(fn) if isinstance(s, ast.While)), None)
+    if loop is None:
+        loop = next((s for s in walk_no_nested(fn) if isinstance(s, ast.While)), None)
     if loop is None:
         ctx.undecided("R-LOWER/progress", construct, fi.where(), "no while loop found", key="loop")
         return
@@ -254,6 +255,37 @@ def check(ctx):
         fi = ctx.need(repo.funcs.get(q), q)
         lower_bound_progress(ctx, repo, R, fi, q)
     framing_rules(ctx, repo)
+    # every OTHER loop of the receive path that scans a byte stream with an index (`while i < len(S)`, `while len(S) - i >= c`) -
+    # a message splitter, a pre-scan, a re-framing helper added later - is held to the same obligation: the index advances by a
+    # proven positive amount on every iteration (a Message Length / AVP Length of 0 taken from the wire must not stall it: the
+    # receive worker would spin for ever holding the association lock)
+    covered = {"bromelia.base.DiameterMessage.load", "bromelia.base.DiameterAVP.load", "bromelia.setup.get_complete_messages_length"}
+    n_scan = 0
+    for fi_ in list(repo.funcs.values()):
+        if fi_.mod.name not in ("bromelia.base", "bromelia.setup", "bromelia.transport", "bromelia.types"):
+            continue
+        for k_, lp_ in enumerate([x for x in walk_no_nested(fi_.node) if isinstance(x, ast.While)]):
+            if fi_.qual in covered and k_ == 0:
+                continue
+            t_ = lp_.test
+            cmps = [c for c in ast.walk(t_) if isinstance(c, ast.Compare) and len(c.ops) == 1]
+            scan = False
+            for c in cmps:
+                sides = [c.left, c.comparators[0]]
+                has_len = any(isinstance(y, ast.Call) and call_name(y) == "len" for z in sides for y in ast.walk(z))
+                has_idx = any(isinstance(y, ast.Name) for z in sides for y in ast.walk(z)
+                              if not (isinstance(z, ast.Call) and call_name(z) == "len" and y in ast.walk(z)))
+                stored_in_loop = {n.id for b in lp_.body for n in ast.walk(b) if isinstance(n, ast.Name) and isinstance(n.ctx, ast.Store)}
+                idx_names = {y.id for z in sides for y in ast.walk(z) if isinstance(y, ast.Name)} & stored_in_loop
+                sliced = any(isinstance(y, ast.Subscript) and isinstance(y.slice, ast.Slice) and
+                             any(isinstance(w, ast.Name) and w.id in idx_names for w in ast.walk(y.slice)) for b in lp_.body for y in ast.walk(b))
+                if has_len and has_idx and idx_names and sliced:
+                    scan = True
+            if not scan:
+                continue
+            n_scan += 1
+            lower_bound_progress(ctx, repo, R, fi_, f"{fi_.qual} (scan loop at line {lp_.lineno})", loop=lp_)
+    ctx.count("other_scan_loops", n_scan)
     # recursive decode of Grouped data receives the AVP's own data (strictly shorter than the enclosing stream)
     g = ctx.need(repo.cls("bromelia.types.GroupedType"), "GroupedType")
     src = ast.unparse(g.methods["__init__"])
